@@ -10,6 +10,8 @@ pub struct ParserConfig<'cache> {
     node_cache: Option<&'cache mut NodeCache>,
     special_like: HashMap<String, SpecialFunction>,
     pub enable_emmylua_doc: bool,
+    /// Scratch state of the parser using this configuration: current recursion depth of the grammar.
+    pub(crate) nest_level: usize,
 }
 
 impl<'cache> ParserConfig<'cache> {
@@ -26,6 +28,7 @@ impl<'cache> ParserConfig<'cache> {
             node_cache,
             special_like,
             enable_emmylua_doc,
+            nest_level: 0,
         }
     }
 
@@ -66,6 +69,7 @@ impl<'cache> ParserConfig<'cache> {
             node_cache: None,
             special_like: HashMap::new(),
             enable_emmylua_doc: true,
+            nest_level: 0,
         }
     }
 }
@@ -78,6 +82,7 @@ impl Default for ParserConfig<'_> {
             node_cache: None,
             special_like: HashMap::new(),
             enable_emmylua_doc: true,
+            nest_level: 0,
         }
     }
 }
